@@ -76,14 +76,17 @@ def run(ctx):
         extraction_failed = str(e)
         entries = []
     ctx.coverage["translator"] = {k: v for k, v in report.items() if k != "modules"}
-    pr = core.prove("C03", extra_modules=["MC.Props.C03NoPanic"])
+    pr = core.prove("C03", extra_modules=["MC.Props.C03NoPanic", "MC.Props.C03Sep", "MC.Props.C03SepSpec"])
     core.proof_coverage(ctx, pr, "lake build MC.Props.C03 && lake env lean build/audit_C03.lean (#print axioms)",
                         ["modelled, not verified: find_operator/compute_type_from_position, is_nary, reduce_stack(_one_time), shift_stack and the loop of canonicalize_mrows_in_mrow for rows of plain tokens "
                          "(MC.Model.Rows); the operator dictionary and the ad-hoc operator infos are regenerated from src/operator-info.in and src/canonicalize.rs",
                          "outside the model: function-name guessing, mixed fractions, implied commas, chemistry, trig arguments, vertical-bar disambiguation, form attributes, embellished operators; "
                          "those rows are checked by the Spec checker on the implementation's output only",
                          "parseRow_no_panic (MC/Props/C03NoPanic.lean): none of the asserts / unwraps of the row parser is reachable for ANY token sequence without the two right quotation "
-                         "marks as mo (they have priority 10, below every other fence; the library converts them to primes before parsing, which the check monitors on the implementation)"])
+                         "marks as mo (they have priority 10, below every other fence; the library converts them to primes before parsing, which the check monitors on the implementation)",
+                         "parseRow_operands_separated (MC/Props/C03Sep.lean) + reportsD_iff / parseRow_never_reports_d (MC/Props/C03SepSpec.lean): clause (d) for EVERY token sequence - whenever the "
+                         "row parser returns a tree, no row at any depth has two neighbouring operands, and that is exactly when the executable checker MC.Spec.Rows.violations (the one run on "
+                         "the implementation's canonical trees here) reports no '(d)' line; clauses (a)-(c) are proved for rows of the modelled token classes only (MC/Props/C03.lean)"])
     core.need_harness(ctx)
     core.need_driver(ctx)
     im, mo = core.impl(), core.model()
